@@ -8,6 +8,7 @@ from hypothesis import strategies as st
 
 from .. import gens, refs
 from ..runner import Sub
+from . import probes2
 from .common import L, Checker, arr
 
 PROPERTY_ID = "C07"
@@ -37,6 +38,7 @@ def s_ctor():
         "pattern": st.lists(gens.fl(-1, 1), min_size=16, max_size=16),
         "i": st.integers(0, 3), "j": st.integers(0, 3),
         "src": st.sampled_from(["ref", "ref", "lib"]),
+        "layout": st.sampled_from([None, None, None] + probes2.LAYOUTS),
     })
 
 
@@ -54,6 +56,10 @@ def gen_cells(tier):
                             for f32 in ((False, True) if d in ("noise", "scale", "lastrow", "reflect") and src == "ref" else (False,)):
                                 yield {"kind": "ctor", "cls": cls, "defect": d, "container": cont, "m3": m3, "m2": m2, "mag": mag,
                                        "pattern": pat, "i": i, "j": 2, "src": src, "f32": f32}
+                                if src == "ref" and not f32 and mag == 1e-4 and cont in ("bare", "valid_bad"):
+                                    for lay in probes2.LAYOUTS:      # the same values held differently in memory
+                                        yield {"kind": "ctor", "cls": cls, "defect": d, "container": cont, "m3": m3, "m2": m2, "mag": mag,
+                                               "pattern": pat, "i": i, "j": 2, "src": src, "f32": f32, "layout": lay}
 
 
 def gen_pred_cells(tier):
@@ -67,6 +73,10 @@ def gen_pred_cells(tier):
                     for f32 in ((False, True) if src == "ref" else (False,)):
                         yield {"kind": "pred", "m3": m3, "m2": m2, "mag": mag, "pattern": pat, "defect": d, "i": i, "j": (i + 1) % 4,
                                "vec": [0.3, -0.2, 0.9, 0.1], "vmag": 1.0 + mag, "src": src, "f32": f32}
+                        if src == "ref" and not f32:
+                            for lay in probes2.LAYOUTS:
+                                yield {"kind": "pred", "m3": m3, "m2": m2, "mag": mag, "pattern": pat, "defect": d, "i": i, "j": (i + 1) % 4,
+                                       "vec": [0.3, -0.2, 0.9, 0.1], "vmag": 1.0 + mag, "src": src, "f32": f32, "layout": lay}
 
 
 def s_pred():
@@ -79,6 +89,7 @@ def s_pred():
         "vec": st.lists(st.one_of(gens.fl(-1, 1), st.just(0.0)), min_size=2, max_size=6),
         "vmag": st.one_of(gens.logmag(-6, 6), st.just(1.0)),
         "src": st.sampled_from(["ref", "lib"]), "f32": st.sampled_from([False, False, False, True]),
+        "layout": st.sampled_from([None, None, None] + probes2.LAYOUTS),
     })
 
 
@@ -296,6 +307,13 @@ def _ctor(case):
     if st_ is None:
         return c.out
     cls, good, bad, dbad, judge, kind = st_
+    lay = case.get("layout") if kind in ("matrix", "twist", "uq3", "uq4") else None
+
+    def H(a):
+        # hand over a copy, row-major or (layout cases) the same values held column-major / as a view
+        return probes2.relayout(a, lay).astype(a.dtype, copy=False) if lay and a.ndim == 2 and a.dtype == np.float64 else a.copy()
+    if lay:
+        c.feat(layout=lay)
     if case.get("f32") and kind == "matrix" and bad.shape == good.shape and cn != "SE3.SO3":
         # the same defective array held in single precision: its distance is that of the rounded values
         bad = bad.astype(np.float32)
@@ -305,17 +323,17 @@ def _ctor(case):
             return c.out            # a valid matrix rounded to float32 is 1e-8 from the group: no statement about it
     c.feat(distance=dbad if math.isfinite(dbad) else 1e300, reflection=case["defect"] in ("reflect", "swap"), f32=bool(case.get("f32")))
     if cont == "bare":
-        arg, nbad, ngood = bad.copy(), 1, 0
+        arg, nbad, ngood = H(bad), 1, 0
     elif cont == "list1":
-        arg, nbad, ngood = [bad.copy()], 1, 0
+        arg, nbad, ngood = [H(bad)], 1, 0
     elif cont == "tuple1":
-        arg, nbad, ngood = (bad.copy(),), 1, 0
+        arg, nbad, ngood = (H(bad),), 1, 0
     elif cont == "valid_bad":
-        arg, nbad, ngood = [good.copy(), bad.copy()], 1, 1
+        arg, nbad, ngood = [H(good), H(bad)], 1, 1
     elif cont == "bad_valid":
-        arg, nbad, ngood = [bad.copy(), good.copy()], 1, 1
+        arg, nbad, ngood = [H(bad), H(good)], 1, 1
     else:
-        arg, nbad, ngood = [good.copy(), bad.copy(), good.copy()], 1, 2
+        arg, nbad, ngood = [H(good), H(bad), H(good)], 1, 2
     if case["defect"] == "inplace":
         # history on one array object: it is valid and accepted once, then modified in place and supplied again
         buf = good.copy()
@@ -373,6 +391,12 @@ def _ctor(case):
 def _pred(case):
     b = L.base
     c = Checker("pred", defect=case["defect"], mag=case["mag"])
+    lay = case.get("layout")
+
+    def H(a):
+        return probes2.relayout(a, lay) if lay and a.ndim == 2 and a.dtype == np.float64 else a.copy()
+    if lay:
+        c.feat(layout=lay)
     for dim in (3, 2):
         for se in (False, True):
             good = member(case, dim, se)
@@ -385,7 +409,7 @@ def _pred(case):
             names = {(3, False): ["isrot", "isR"], (3, True): ["ishom"], (2, False): ["isrot2", "isR"], (2, True): ["ishom2"]}[(dim, se)]
             for nm in names:
                 f = getattr(b, nm)
-                okc, r = c.lib(nm, (lambda: f(M.copy())) if nm == "isR" else (lambda: f(M.copy(), check=True)))
+                okc, r = c.lib(nm, (lambda: f(H(M))) if nm == "isR" else (lambda: f(H(M), check=True)))
                 if not okc:
                     continue
                 r = bool(r)
@@ -402,7 +426,7 @@ def _pred(case):
                     c.true(nm + "/accepts", r is True, "%s rejected a valid matrix (distance %.3g)" % (nm, d), distance=d, pred=nm)
             # the classes' own validity tests (used by every constructor)
             cname = ("SE" if se else "SO") + str(dim)
-            okc, r = c.lib(cname + ".isvalid", lambda: getattr(L, cname).isvalid(M.copy(), check=True))
+            okc, r = c.lib(cname + ".isvalid", lambda: getattr(L, cname).isvalid(H(M), check=True))
             if okc:
                 if d > REJECT:
                     c.true(cname + ".isvalid/rejects", bool(r) is False, "%s.isvalid accepted a matrix at distance %.3g (%s)" % (cname, d, case["defect"]), distance=d)
@@ -439,37 +463,37 @@ def _pred(case):
         A = algebra_member(case, dim)
         n = dim
         S = A[:n, :n].copy()
-        okc, r = c.lib("isskew", b.isskew, S.copy())
+        okc, r = c.lib("isskew", b.isskew, H(S))
         if okc:
             c.true("isskew/accepts", bool(r) is True, "isskew rejected an exactly skew-symmetric matrix")
-        okc, r = c.lib("isskewa", b.isskewa, A.copy())
+        okc, r = c.lib("isskewa", b.isskewa, H(A))
         if okc:
             c.true("isskewa/accepts", bool(r) is True, "isskewa rejected an exact se(%d) matrix" % n)
         if mag > 1e-6:
             Sb = S + mag * (np.abs(P[:n, :n]) + 0.5)
             asym = float(np.max(np.abs(Sb + Sb.T)))
             if asym > 1e-6:
-                okc, r = c.lib("isskew", b.isskew, Sb)
+                okc, r = c.lib("isskew", b.isskew, H(Sb))
                 if okc:
                     c.true("isskew/rejects", bool(r) is False, "isskew accepted asymmetry %.3g" % asym)
                 Ab = A.copy()
                 Ab[:n, :n] = Sb
-                okc, r = c.lib("isskewa", b.isskewa, Ab)
+                okc, r = c.lib("isskewa", b.isskewa, H(Ab))
                 if okc:
                     c.true("isskewa/rejects", bool(r) is False, "isskewa accepted asymmetry %.3g" % asym)
             Ab = A.copy()
             Ab[n, case["i"] % (n + 1)] = mag
-            okc, r = c.lib("isskewa", b.isskewa, Ab)
+            okc, r = c.lib("isskewa", b.isskewa, H(Ab))
             if okc:
                 c.true("isskewa/lastrow", bool(r) is False, "isskewa accepted last-row entry %.3g" % mag)
         I = np.eye(n)
-        okc, r = c.lib("iseye", b.iseye, I.copy())
+        okc, r = c.lib("iseye", b.iseye, H(I))
         if okc:
             c.true("iseye/accepts", bool(r) is True, "iseye rejected the identity")
         if mag > 1e-6:
             Ib = I.copy()
             Ib[case["i"] % n, case["j"] % n] += mag
-            okc, r = c.lib("iseye", b.iseye, Ib)
+            okc, r = c.lib("iseye", b.iseye, H(Ib))
             if okc:
                 c.true("iseye/rejects", bool(r) is False, "iseye accepted identity + %.3g" % mag)
     # vector predicates
